@@ -458,6 +458,28 @@ func (s *Sched) mapOrder(site string, n int) []int {
 	return perm
 }
 
+// selectOrder: polling order of a rewritten select (R7b); recorded and replayed like a map permutation.
+//
+//go:norace
+func (s *Sched) selectOrder(site string, n int) []int {
+	return s.mapOrderOrIdentity("select@"+site, n)
+}
+
+//go:norace
+func (s *Sched) mapOrderOrIdentity(site string, n int) []int {
+	saved := s.Pol.MapMode
+	s.Pol.MapMode = 1
+	p := s.mapOrder(site, n)
+	s.Pol.MapMode = saved
+	if p == nil {
+		p = make([]int, n)
+		for i := range p {
+			p[i] = i
+		}
+	}
+	return p
+}
+
 //go:norace
 func (s *Sched) fail(site string) error {
 	n := 0
@@ -503,6 +525,7 @@ func (s *Sched) Run(tasks []func()) {
 	NowHook = s.now
 	TornHook = s.torn
 	BlockedHook = s.blocked
+	SelectHook = s.selectOrder
 	s.baton = -1
 	s.wg.Add(s.N)
 	for i := range tasks {
@@ -520,7 +543,7 @@ func (s *Sched) Run(tasks []func()) {
 	go s.monitor()
 	s.wg.Wait()
 	close(s.stopMon)
-	YieldHook, HotHook, MapOrderHook, FailHook, NowHook, TornHook, BlockedHook = nil, nil, nil, nil, nil, nil, nil
+	YieldHook, HotHook, MapOrderHook, FailHook, NowHook, TornHook, BlockedHook, SelectHook = nil, nil, nil, nil, nil, nil, nil, nil
 }
 
 //go:norace
